@@ -522,3 +522,112 @@ func badCopyOverlap(s []int) int {
 	copy(s[1:], s)
 	return s[2]
 }
+
+// ---- range evaluates its operand once; over an array it ranges over a copy
+func badRangeOnce(s []int) int {
+	n := 0
+	for range s {
+		s = s[:0]
+		n++
+	}
+	return n
+}
+func badRangeArrayCopy() int {
+	a := [3]int{1, 2, 3}
+	sum := 0
+	for _, v := range a {
+		a[2] = 10
+		sum += v
+	}
+	return sum
+}
+func badRangeSliceLive() int {
+	a := []int{1, 2, 3}
+	sum := 0
+	for _, v := range a {
+		a[2] = 10
+		sum += v
+	}
+	return sum
+}
+
+// ---- fallthrough
+func badFallthrough(x int) int {
+	r := 0
+	switch x {
+	case 1:
+		r += 1
+		fallthrough
+	case 2:
+		r += 2
+	}
+	return r
+}
+
+// ---- operands of a tuple assignment are evaluated before any assignment
+func okSwapElems(s []int) int {
+	s[0], s[1] = s[1], s[0]
+	return s[0]
+}
+func badSwapElems(s []int) int {
+	s[0], s[1] = s[1], s[0]
+	return s[1]
+}
+func badIndexOrder(s []int) int {
+	i := 0
+	i, s[i] = 1, 5
+	return s[1]
+}
+
+// ---- a pointer to a local variable
+func badAddrLocal() int {
+	x := 1
+	p := &x
+	*p = 3
+	return x
+}
+func badAddrField() int {
+	var q pair
+	p := &q.a
+	*p = 3
+	return q.a
+}
+
+// ---- a pointer-receiver method called on an addressable value changes it
+func okAddrRecv() int {
+	var q pair
+	q.setAP(4)
+	return q.a
+}
+func badAddrRecv() int {
+	var q pair
+	q.setAP(4)
+	return q.a
+}
+
+// ---- strings
+func badStrLen() int       { return len("é") }
+func okStrLess() bool      { return "ab" < "b" }
+func badStrLess() bool     { return "ab" < "b" }
+
+// ---- typed arithmetic and shifts
+func okTyped() uint8 {
+	var a uint8 = 200
+	return a + 100
+}
+func badTyped() uint8 {
+	var a uint8 = 200
+	return a + 100
+}
+func okShr(x int) int  { return x >> 1 }
+func badShr(x int) int { return x >> 1 }
+func okBigShift(x uint64, n uint) uint64  { return x << n }
+func badBigShift(x uint64, n uint) uint64 { return x << n }
+
+// ---- map of slices
+func badMapAppend() int {
+	m := map[string][]int{}
+	m["a"] = append(m["a"], 1)
+	m["a"] = append(m["a"], 2)
+	return len(m["a"])
+}
